@@ -112,7 +112,7 @@ def child_main(spec_file, out_file):
     inst = spec["inst"]
     regions = [tuple(r) for r in spec["regions"]]
     S_ = len(regions)
-    result = dict(outcome=None, detail="", digest=None, log=[])
+    result = dict(outcome=None, detail="", digest=None, log=[], quiescent_limit=float(spec.get("quiescent_limit", 20.0)))
     holder = {}
     ctrl = None
     if spec.get("schedule") is not None:
@@ -183,7 +183,7 @@ def _controller(schedule, S_, holder, result):
             return False
         return bst not in (1, -1) and ngate + nfin + bcnt == S_
 
-    def wait_quiescent(limit=20.0):
+    def wait_quiescent(limit=result.get("quiescent_limit", 20.0)):
         t0 = time.time()
         stable = 0
         while time.time() - t0 < limit:
@@ -218,9 +218,26 @@ def _controller(schedule, S_, holder, result):
             g.release()
 
 
-def run_real(inst, regions, labels, schedule, fault, scratch, timeout=60):
+_SLOW = []
+
+
+def slowness():
+    """how slow this machine is right now: seconds a fresh interpreter needs to import what the child imports (about 1.5 s
+    on the idle 16-core sandbox).  Deadlines below scale with it, so that a loaded machine is not reported as a hang."""
+    if not _SLOW:
+        t = time.time()
+        code = "import sys; sys.path.insert(0, %r); from checks import c07_real" % os.path.dirname(os.path.dirname(os.path.abspath(__file__)))
+        subprocess.run([sys.executable, "-c", code], stdout=subprocess.DEVNULL, stderr=subprocess.DEVNULL, env=dict(os.environ, AEGEAN_VERIF="1"))
+        _SLOW.append(max(1.0, time.time() - t))
+    return _SLOW[0]
+
+
+def run_real(inst, regions, labels, schedule, fault, scratch, timeout=None):
     """returns dict(outcome, digest, detail, leaked, controller)"""
-    spec = dict(inst=inst, regions=[list(r) for r in regions], labels=labels, schedule=schedule, fault=list(fault) if fault else None)
+    if timeout is None:
+        timeout = 60 + 30 * slowness()
+    spec = dict(inst=inst, regions=[list(r) for r in regions], labels=labels, schedule=schedule, fault=list(fault) if fault else None,
+                quiescent_limit=20.0 + 10 * slowness())
     sf = os.path.join(scratch, "real_spec_%d.json" % os.getpid())
     of = os.path.join(scratch, "real_out_%d.json" % os.getpid())
     json.dump(spec, open(sf, "w"))
